@@ -188,7 +188,7 @@ fn gap() -> BoxedStrategy<u64> {
 }
 
 pub fn trace(max_len: usize) -> BoxedStrategy<Vec<(u64, bool)>> {
-    (
+    let mixed = (
         proptest::collection::vec((gap(), any::<bool>()), 1..=max_len),
         prop_oneof![6 => Just(0u8), 1 => Just(1u8), 1 => Just(2u8)],
     )
@@ -207,8 +207,43 @@ pub fn trace(max_len: usize) -> BoxedStrategy<Vec<(u64, bool)>> {
                 out.push((t, sent));
             }
             out
-        })
-        .boxed()
+        });
+    // evenly paced traffic sustained over seconds (what a bottleneck model reacts to)
+    let paced = (
+        20_000_000u64..250_000_000,
+        0u64..20_000_000,
+        proptest::collection::vec((any::<bool>(), 0u64..1000), 8..=max_len.max(8)),
+        0u8..3,
+    )
+        .prop_map(|(base, jitter, v, style)| {
+            let mut t = 0u64;
+            let mut out = vec![];
+            for (i, (s, j)) in v.into_iter().enumerate() {
+                let sent = match style {
+                    0 => i % 2 == 0,
+                    1 => s,
+                    _ => i % 3 != 0,
+                };
+                out.push((t, sent));
+                // alternate directions at (nearly) the same instant, then wait
+                if style == 0 && i % 2 == 0 {
+                    t += j;
+                } else {
+                    t += base + (j * jitter) / 1000;
+                }
+            }
+            out
+        });
+    prop_oneof![4 => mixed, 1 => paced].boxed()
+}
+
+/// seeds, with the corners of the u64 range
+pub fn seed() -> BoxedStrategy<u64> {
+    prop_oneof![
+        8 => any::<u64>(),
+        1 => select(vec![0u64, 1, u64::MAX, u64::MAX - 1, 1u64 << 63]),
+    ]
+    .boxed()
 }
 
 pub fn delay() -> BoxedStrategy<u64> {
